@@ -223,16 +223,16 @@ class XPathToken(Token[ta.XPathTokenType]):
     def select_with_focus(self, context: XPathContext) -> Iterator[ta.ItemType]:
         """Select item with an inner focus on dynamic context."""
         status = context.item, context.size, context.position, context.axis
-        context.axis = None
-        results = [x for x in self.select(context)]
-
-        context.axis = None
-        context.size = len(results)
         try:
+            context.axis = None
+            results = [x for x in self.select(context)]
+
+            context.axis = None
+            context.size = len(results)
             for context.position, context.item in enumerate(results, start=1):
                 yield context.item
         finally:
-            # also when the consumer stops early (fn:boolean on a node sequence, fn:head, ...)
+            # also when the consumer stops early (fn:boolean on a node sequence, fn:head, ...) or a step raises
             context.item, context.size, context.position, context.axis = status
 
     def select_results(self, context: ta.ContextType) -> Iterator[ta.ResultType]:
